@@ -199,6 +199,23 @@ harnesses! {
     fn c01_t_push_amino_l9 [10] { push_step!(Amino, oracle::AMINO, 21, 9) }
     fn c01_t_push_dna_l0 [10] { push_step!(Dna, oracle::DNA, 64, 0) }
     // ---- display
+    fn c01_q_display_owned_dna_n2 [10] {
+        // Display / to_string / String::from on an owned sequence
+        let w = any_words::<2>();
+        let src = arr::<Dna, 64, 2>(w);
+        let s = owned_cap(&src, 31, 2, 2);
+        let t1 = s.to_string();
+        let t2 = String::from(&s);
+        let i = any_usize();
+        assume(i < 2);
+        let ch = oracle::DNA.to_char[sym(&w, 62, 2, i) as usize];
+        assert!(t1.as_bytes().len() == 2 && t2.as_bytes().len() == 2, "C01.display.one_char_per_symbol");
+        assert!(t1.as_bytes()[i] == ch && t2.as_bytes()[i] == ch, "C01.display.owned_char_i_is_symbol_i");
+        reach!("end");
+        core::mem::forget(t1);
+        core::mem::forget(t2);
+        core::mem::forget(s);
+    }
     fn c01_q_display_dna_o31_n2 [10] { display!(Dna, oracle::DNA, 64, 31, 2) }
     fn c01_q_display_amino_o10_n2 [10] { display!(Amino, oracle::AMINO, 21, 10, 2) }
     fn c01_t_display_dna_o0_n3 [10] { display!(Dna, oracle::DNA, 64, 0, 3) }
